@@ -77,25 +77,48 @@ func (w *World) standalone(op *Op) {
 	case "br.observe":
 		w.observeBreaker(op.Pol)
 	// ---- limiter
+	// with one permit and Arg == 1 the single-permit form of the call is used
 	case "rl.try":
 		inv()
-		ret(b2i(w.rls[op.Pol].TryAcquirePermits(op.N)), nil)
+		if op.N == 1 && op.Arg == 1 {
+			ret(b2i(w.rls[op.Pol].TryAcquirePermit()), nil)
+		} else {
+			ret(b2i(w.rls[op.Pol].TryAcquirePermits(op.N)), nil)
+		}
 	case "rl.reserve":
 		inv()
-		ret(int64(w.rls[op.Pol].ReservePermits(op.N)), nil)
+		if op.N == 1 && op.Arg == 1 {
+			ret(int64(w.rls[op.Pol].ReservePermit()), nil)
+		} else {
+			ret(int64(w.rls[op.Pol].ReservePermits(op.N)), nil)
+		}
 	case "rl.tryreserve":
 		inv()
-		ret(int64(w.rls[op.Pol].TryReservePermits(op.N, op.Dur)), nil)
+		if op.N == 1 && op.Arg == 1 {
+			ret(int64(w.rls[op.Pol].TryReservePermit(op.Dur)), nil)
+		} else {
+			ret(int64(w.rls[op.Pol].TryReservePermits(op.N, op.Dur)), nil)
+		}
 	case "rl.acquire":
 		inv()
 		ctx, cancel := acquireCtx(op)
-		err := w.rls[op.Pol].AcquirePermitsWithMaxWait(ctx, op.N, op.Dur)
+		var err error
+		if op.N == 1 && op.Arg == 1 {
+			err = w.rls[op.Pol].AcquirePermitWithMaxWait(ctx, op.Dur)
+		} else {
+			err = w.rls[op.Pol].AcquirePermitsWithMaxWait(ctx, op.N, op.Dur)
+		}
 		cancel()
 		ret(b2i(err == nil), err)
 	case "rl.acquire_nomax":
 		inv()
 		ctx, cancel := acquireCtx(op)
-		err := w.rls[op.Pol].AcquirePermits(ctx, op.N)
+		var err error
+		if op.N == 1 && op.Arg == 1 {
+			err = w.rls[op.Pol].AcquirePermit(ctx)
+		} else {
+			err = w.rls[op.Pol].AcquirePermits(ctx, op.N)
+		}
 		cancel()
 		ret(b2i(err == nil), err)
 	}
@@ -106,15 +129,22 @@ func (w *World) observeBreaker(pol int) {
 	br := w.brs[pol]
 	var st circuitbreaker.State
 	var rem time.Duration
+	predMismatch := false
 	var m [5]uint
 	quiet(func() {
 		st = br.State()
+		is := [3]bool{br.IsClosed(), br.IsOpen(), br.IsHalfOpen()}
+		for k, b := range is {
+			if b != (int(st) == k) {
+				predMismatch = true
+			}
+		}
 		rem = br.RemainingDelay()
 		mm := br.Metrics()
 		m = [5]uint{mm.Executions(), mm.Failures(), mm.Successes(), mm.FailureRate(), mm.SuccessRate()}
 	})
 	w.log.add(Event{Kind: EvStandalone, Str: "br.observe", Pos: pol, A: int64(st), B: int64(rem), L: 1, Exec: -2,
-		Attempts: int(m[0]), Executions: int(m[1]), Retries: int(m[2]), Hedges: int(m[3]), Aux: []int{int(m[4])}})
+		Attempts: int(m[0]), Executions: int(m[1]), Retries: int(m[2]), Hedges: int(m[3]), Aux: []int{int(m[4]), map[bool]int{false: 0, true: 1}[predMismatch]}})
 }
 
 // acquireCtx is the context of a blocking standalone acquire: the caller gives up after op.CancelAt when that is set.
